@@ -237,6 +237,19 @@ def execute(case):
         where.update(lenient_warnings=msgs, strict=strict_exc,
                      strict_warnings=[str(r.message) for r in rec2])
         raise Violation("strict-and-lenient-disagree", "parse", where)
+    # ---- (2') a later client parsing the same stream in the same process sees the same
+    # diagnostics (guards against process-global memoisation of warnings, seam S8)
+    with warnings.catch_warnings(record=True) as rec3:
+        warnings.simplefilter("always")
+        try:
+            changelog.Changelog(deliver(lines, how), allow_empty_author=aea)
+        except Exception as e:   # pylint: disable=broad-except
+            where["error"] = repr(e)
+            raise Violation("lenient-parse-raised", type(e).__name__, where)
+    msgs3 = [str(r.message) for r in rec3]
+    if msgs3 != msgs:
+        where.update(first_parse_warnings=msgs, second_parse_warnings=msgs3, strict=strict_exc)
+        raise Violation("strict-and-lenient-disagree", "second-parse", where)
     # probes on what the stream looked like
     if any("Found eof" in m for m in msgs):
         out.probe("eof_inside_block")
